@@ -80,17 +80,22 @@ Fixpoint svalue (v : xvalue) : sx :=
   | VCat l => SL [SZ 6; svalue l]
   end.
 
-Definition as_kind (s : sx) : option kind :=
+Fixpoint as_kind_f (fuel : nat) (s : sx) : option kind :=
+  match fuel with O => None | S fuel' =>
+  match s with
+  | SL [SZ 5%Z; lk] => option_map (fun k => KCat (Some k)) (as_kind_f fuel' lk)
+  | _ =>
   match s with
   | SL [SZ 0%Z; sg; bits] => match as_bool sg, as_N bits with Some sg, Some b => Some (KInt sg b) | _, _ => None end
   | SL [SZ 1%Z] => Some KBool
   | SL [SZ 2%Z] => Some KStr
   | SL [SZ 3%Z; single] => option_map KFloat (as_bool single)
   | SL [SZ 4%Z; ns] => option_map KTime (as_bool ns)
-  | SL [SZ 5%Z] => Some KCat
+  | SL [SZ 5%Z] => Some (KCat None)
   | SL [SZ 7%Z] => Some KTimeTz
   | _ => None
-  end.
+  end end end.
+Definition as_kind := as_kind_f 4.
 Definition as_pm (s : sx) : option (list (str * kind)) := as_list_of (as_pair as_str as_kind) s.
 
 Section WithOracle.
